@@ -121,12 +121,16 @@ impl World {
         }
         let Ok(now) = rust_cc::state::allocated_bytes() else { return };
         let a = now.saturating_sub(created_box_size);
+        let init = self.m.borrow().initial_threshold;
+        if init == 0 {
+            return;
+        }
         let mut k = thr;
-        while k > 100 && k % 2 == 0 {
+        while k > init && k % 2 == 0 {
             k /= 2;
         }
-        if k != 100 {
-            self.fail("O-THRESH.power", format!("byte threshold {} after a collection is not a power-of-two multiple of 100", thr));
+        if k != init {
+            self.fail("O-THRESH.power", format!("byte threshold {} after a collection is not a power-of-two multiple of its initial value {}", thr, init));
             return;
         }
         if thr <= a {
@@ -134,7 +138,7 @@ impl World {
             return;
         }
         if pct != 0.0 {
-            let ok = (a as f64) > (thr as f64) * pct || thr / 2 <= a || thr == 100;
+            let ok = (a as f64) > (thr as f64) * pct || thr / 2 <= a || thr == init;
             if !ok {
                 self.fail("O-THRESH.high", format!("byte threshold {} left needlessly high after a collection: allocated {} <= threshold x {} and halving would still be above allocated", thr, a, pct));
             }
@@ -571,12 +575,25 @@ impl World {
                     return;
                 }
                 let msg = panic_message(&p);
-                if !msg.contains("Too many references") {
-                    self.fail("O-SAT.message", format!("{} on object {} at the limit panicked with an unexpected message: {}", what, o, msg));
+                if internal_error_message(&msg) {
+                    self.fail("O-SAT.message", format!("{} on object {} at the limit did not panic with the limit panic but with an internal error: {}", what, o, msg));
                 }
             }
         }
     }
+}
+
+/// Is this the message of a failed internal check (arithmetic overflow check, assertion, unwrap, bounds or borrow
+/// check) rather than of a deliberate `panic!`? The wording of the crate's own panics is not part of any property.
+pub fn internal_error_message(msg: &str) -> bool {
+    msg.starts_with("attempt to ")
+        || msg.contains("assertion")
+        || msg.contains("called `Option::unwrap()`")
+        || msg.contains("called `Result::unwrap()`")
+        || msg.contains("out of bounds")
+        || msg.contains("already borrowed")
+        || msg.contains("already mutably borrowed")
+        || msg.contains("unreachable code")
 }
 
 pub fn panic_message(p: &Box<dyn std::any::Any + Send>) -> String {
